@@ -238,6 +238,9 @@ impl Property for C07 {
     fn id(&self) -> &'static str {
         "C07"
     }
+    fn fuzzable(&self) -> bool {
+        true
+    }
     fn rule(&self) -> String {
         "cases: (exhaustive) all 13^3 sentences `a o1 b o2 c o3 d`, all 169 pairs and 13 single operators against an own precedence-climbing parser (five README levels, left associative, nested method calls), `a o b` == `a.o(b)`, and the dangling-else family (all paren-free sentences over if/else/while/let/<-/field<-/index<- up to nesting 4, against a nearest-if reference parser); (random) IR from the tape over the parser's whole range -> rendered minimally and fully parenthesized -> parsed -> must equal the IR; the parser-produced AST printed again in both styles must reparse to the identical AST; token-boundary decorations from {space, tab, CR, LF, CRLF, block comments incl. UTF-8/multi-line/star runs, line comments} and redundant parentheses must not change the AST. non-trivial: >=2 operators of different levels, or a dangling-else shape, or a postfix chain >=3; distinct by text".into()
     }
